@@ -52,11 +52,17 @@ func (vc *VC) stringConcat(st *State, x, y *SV, rt types.Type) *SV {
 // arbitrary values, updates are forgotten; noted as an assumption).
 
 type mapShape struct {
-	ok       bool
-	kbits    int
-	vsort    Sort
-	dom, val string // state keys
+	ok     bool
+	kstr   bool // string keys: only constant keys are tracked (key = id of the string constant)
+	kbits  int
+	vsort  Sort   // first (or only) value component
+	vsorts []Sort // all value components
+	dom    string // state key of the domain
+	val    string // state key of the first value component
+	vals   []string
 }
+
+const maxMapComps = 4
 
 func mapKeys() map[string]string {
 	out := map[string]string{}
@@ -65,6 +71,12 @@ func mapKeys() map[string]string {
 		out[fmt.Sprintf("Md%d", k)] = fmt.Sprintf("(Array (_ BitVec 32) (Array %s Bool))", ks)
 		for _, v := range []Sort{SBool, SBV32, SBV64} {
 			out[fmt.Sprintf("Mv%d_%s", k, vtag(v))] = fmt.Sprintf("(Array (_ BitVec 32) (Array %s %s))", ks, v)
+		}
+	}
+	// further value components (slices, strings, pointers as map values), 64-bit keys only
+	for i := 1; i < maxMapComps; i++ {
+		for _, v := range []Sort{SBool, SBV32, SBV64} {
+			out[fmt.Sprintf("Mv64c%d_%s", i, vtag(v))] = fmt.Sprintf("(Array (_ BitVec 32) (Array (_ BitVec 64) %s))", v)
 		}
 	}
 	return out
@@ -83,18 +95,59 @@ func shapeOf(t types.Type) mapShape {
 		return mapShape{}
 	}
 	kl, vl := layout(m.Key()), layout(m.Elem())
-	if len(kl) != 1 || len(vl) != 1 {
+	sh := mapShape{}
+	switch {
+	case isString(m.Key()):
+		sh.kstr, sh.kbits = true, 64
+	case len(kl) == 1 && kl[0] != SBool && kl[0] != SRef && (kl[0].Bits() == 32 || kl[0].Bits() == 64):
+		sh.kbits = kl[0].Bits()
+	default:
 		return mapShape{}
 	}
-	kb := kl[0].Bits()
-	if kl[0] == SBool || (kb != 32 && kb != 64) || kl[0] == SRef {
+	if len(vl) < 1 || len(vl) > maxMapComps || (len(vl) > 1 && sh.kbits != 64) {
 		return mapShape{}
 	}
-	v := vl[0]
-	if v != SBool && v != SBV32 && v != SBV64 {
-		return mapShape{}
+	for i, v := range vl {
+		if v != SBool && v.Bits() != 32 && v.Bits() != 64 {
+			return mapShape{}
+		}
+		vs := v
+		if v != SBool {
+			vs = bvSort(v.Bits())
+		}
+		key := fmt.Sprintf("Mv%d_%s", sh.kbits, vtag(vs))
+		if i > 0 {
+			key = fmt.Sprintf("Mv64c%d_%s", i, vtag(vs))
+		}
+		sh.vsorts = append(sh.vsorts, vs)
+		sh.vals = append(sh.vals, key)
 	}
-	return mapShape{ok: true, kbits: kb, vsort: v, dom: fmt.Sprintf("Md%d", kb), val: fmt.Sprintf("Mv%d_%s", kb, vtag(v))}
+	sh.ok, sh.vsort, sh.val = true, sh.vsorts[0], sh.vals[0]
+	sh.dom = fmt.Sprintf("Md%d", sh.kbits)
+	return sh
+}
+
+// strKeyIDs: ids of string constants (the key of a constant string in a string-keyed map)
+var strKeyIDs = map[int]bool{}
+
+// mapKey gives the key term of k for a map of shape sh; ok is false for a string key that is
+// not a constant (such lookups are arbitrary, such updates forget the whole map).
+func (vc *VC) mapKey(sh mapShape, k *SV) (string, bool) {
+	if !sh.kstr {
+		return k.C[0], true
+	}
+	if v, _, ok := litVal(k.C[0]); ok {
+		if v.Sign() == 0 {
+			if lv, _, ok2 := litVal(k.C[2]); ok2 && lv.Sign() == 0 {
+				return bvLit(64, 0), true // the empty string
+			}
+			return "", false
+		}
+		if v.IsInt64() && strKeyIDs[int(v.Int64())] {
+			return bvLit(64, v.Int64()), true
+		}
+	}
+	return "", false
 }
 
 func (vc *VC) mapInit(st *State, ref string, t types.Type) {
@@ -106,10 +159,20 @@ func (vc *VC) mapInit(st *State, ref string, t types.Type) {
 	st.H[sh.dom] = vc.def(stateSorts[sh.dom], sto(st.H[sh.dom], ref, empty), sh.dom)
 }
 
-// mapGet returns (present, value) of m[k] in state st without side effects.
+// mapGet returns (present, value) of m[k] in state st without side effects (first value component).
 func mapGet(st *State, sh mapShape, m, k string) (string, string) {
 	present := sel2(st.H[sh.dom], m, k)
 	return present, ite(present, sel2(st.H[sh.val], m, k), zeroOf(sh.vsort))
+}
+
+// mapGetAll: all value components.
+func mapGetAll(st *State, sh mapShape, m, k string) (string, []string) {
+	present := sel2(st.H[sh.dom], m, k)
+	var out []string
+	for i, key := range sh.vals {
+		out = append(out, ite(present, sel2(st.H[key], m, k), zeroOf(sh.vsorts[i])))
+	}
+	return present, out
 }
 
 func (vc *VC) mapLookup(f *Frame, n *Node, in *ssa.Lookup, m *SV) *SV {
@@ -119,20 +182,44 @@ func (vc *VC) mapLookup(f *Frame, n *Node, in *ssa.Lookup, m *SV) *SV {
 	vt := mt.Elem()
 	var val *SV
 	var present string
-	if !sh.ok {
-		vc.note("map of shape " + in.X.Type().String() + " is opaque: lookups return arbitrary values")
+	key, kok := "", false
+	if sh.ok {
+		key, kok = vc.mapKey(sh, f.get(in.Index, n))
+	}
+	if !sh.ok || !kok {
+		if !sh.ok {
+			vc.note("map of shape " + in.X.Type().String() + " is opaque: lookups return arbitrary values")
+		} else {
+			vc.note("lookup in " + in.X.Type().String() + " with a non-constant string key: arbitrary result")
+		}
 		val = vc.freshSV(vt, "mapv", st)
 		present = vc.freshS(SBool, "mapok")
 	} else {
-		key := f.get(in.Index, n).C[0]
-		p, v := mapGet(st, sh, m.C[0], key)
+		p, vs := mapGetAll(st, sh, m.C[0], key)
 		present = vc.def("Bool", p, "mapok")
-		val = &SV{T: vt, C: []string{vc.defS(sh.vsort, v, "mapv")}}
+		val = &SV{T: vt}
+		vl := layout(vt)
+		for i, v := range vs {
+			val.C = append(val.C, vc.defS(sh.vsorts[i], v, "mapv"))
+			if vl[i] == SRef {
+				// references stored in a map refer to existing objects
+				vc.assume(app("bvult", val.C[i], st.H["next"]))
+			}
+		}
+		vc.constrainSV(val)
 	}
 	if in.CommaOk {
 		return tupleSV(in.Type(), val, &SV{T: types.Typ[types.Bool], C: []string{present}})
 	}
 	return val
+}
+
+// mapForget: the map object m may have changed arbitrarily.
+func (vc *VC) mapForget(st *State, sh mapShape, m string) {
+	st.H[sh.dom] = vc.def(stateSorts[sh.dom], sto(st.H[sh.dom], m, vc.fresh(fmt.Sprintf("(Array %s Bool)", bvSort(sh.kbits)), "mdom")), sh.dom)
+	for i, key := range sh.vals {
+		st.H[key] = vc.def(stateSorts[key], sto(st.H[key], m, vc.fresh(fmt.Sprintf("(Array %s %s)", bvSort(sh.kbits), sh.vsorts[i]), "mval")), key)
+	}
 }
 
 func (vc *VC) mapUpdate(f *Frame, n *Node, in *ssa.MapUpdate) {
@@ -144,10 +231,17 @@ func (vc *VC) mapUpdate(f *Frame, n *Node, in *ssa.MapUpdate) {
 		vc.note("map of shape " + in.Map.Type().String() + " is opaque: updates are forgotten")
 		return
 	}
-	key := f.get(in.Key, n).C[0]
+	key, kok := vc.mapKey(sh, f.get(in.Key, n))
+	if !kok {
+		vc.note("update of " + in.Map.Type().String() + " with a non-constant string key: the map's tracked contents are forgotten")
+		vc.mapForget(st, sh, m.C[0])
+		return
+	}
 	val := f.get(in.Value, n)
 	st.H[sh.dom] = vc.def(stateSorts[sh.dom], sto2(st.H[sh.dom], m.C[0], key, "true"), sh.dom)
-	st.H[sh.val] = vc.def(stateSorts[sh.val], sto2(st.H[sh.val], m.C[0], key, val.C[0]), sh.val)
+	for i, k := range sh.vals {
+		st.H[k] = vc.def(stateSorts[k], sto2(st.H[k], m.C[0], key, val.C[i]), k)
+	}
 }
 
 func (vc *VC) mapDelete(f *Frame, n *Node, m, k *SV) {
@@ -156,7 +250,12 @@ func (vc *VC) mapDelete(f *Frame, n *Node, m, k *SV) {
 	if !sh.ok {
 		return
 	}
-	st.H[sh.dom] = vc.def(stateSorts[sh.dom], sto2(st.H[sh.dom], m.C[0], k.C[0], "false"), sh.dom)
+	key, kok := vc.mapKey(sh, k)
+	if !kok {
+		vc.mapForget(st, sh, m.C[0])
+		return
+	}
+	st.H[sh.dom] = vc.def(stateSorts[sh.dom], sto2(st.H[sh.dom], m.C[0], key, "false"), sh.dom)
 }
 
 func (vc *VC) mapLen(st *State, m *SV) string {
